@@ -225,6 +225,7 @@ func (x *ChanPubSub[C, V]) Send(value V) (sent int) {
 	if sent != 0 {
 		verifAt("cps.send.pong.lock", x, sent)
 		x.pongC.L.Lock()
+		verifAt("cps.send.pong.locked", x, 0)
 		defer x.pongC.L.Unlock()
 
 		x.checkBroken() // AFTER lock (broken state is only broadcast once)
@@ -347,6 +348,7 @@ func (x *ChanPubSub[C, V]) Wait() {
 
 	verifAt("cps.wait.lock", x, 0)
 	x.pongC.L.Lock()
+	verifAt("cps.wait.locked", x, 0)
 	defer x.pongC.L.Unlock()
 
 	x.checkBroken() // AFTER lock (broken state is only broadcast once)
